@@ -2,8 +2,8 @@
    Walk side: for an ARBITRARY per-entry verdict (the `ign` flag of each node, supplied by the
    tool's own matcher), the search returns exactly the entries none of whose ancestors-or-self
    is ignored, and nothing else changes.  Statements only. *)
-From Coq Require Import List NArith Bool.
-From FS Require Import lib.Str gen.GatesGen model.Walk spec.WalkSpec proofs.WalkBase proofs.WalkDfs proofs.WalkCor.
+From Coq Require Import List NArith Bool Permutation.
+From FS Require Import lib.Str gen.GatesGen model.Walk spec.WalkSpec proofs.WalkBase proofs.WalkDfs proofs.WalkCor proofs.WalkCorBfs.
 Import ListNotations.
 Open Scope N_scope.
 
@@ -21,6 +21,15 @@ Theorem C20_pruning_walk : forall accept buffered o fuel nm i g kk p c,
     out s1 = spec_rows accept (o_arc o) (o_min o) (o_max o)
                (map snd (filter unignored (flat_map (preA (o_max o) false (height (NDir nm i g true kk)) 1 p []) kk))).
 Proof. exact C20_walk_dfs. Qed.
+
+(* ... and in breadth-first mode (the binary's default) the same rows in level order *)
+Theorem C20_pruning_walk_bfs : forall accept buffered o fuel nm i g kk p c,
+  (nodes (NDir nm i g true kk) <= fuel)%nat -> canon_ok c -> names_ok kk -> NoDup (i :: inodes_of kk) ->
+  o_dfs o = false -> o_ign o = true ->
+  exists s1, walk_root accept buffered 0 o fuel p c (NDir nm i g true kk) st0 = Some s1 /\
+    Permutation (out s1) (spec_rows accept (o_arc o) (o_min o) (o_max o)
+               (map snd (filter unignored (flat_map (preA (o_max o) false (height (NDir nm i g true kk)) 1 p []) kk)))).
+Proof. exact WalkCorBfs.C20_walk_bfs. Qed.
 
 (* with the option off the verdicts are irrelevant: hidden is constantly false *)
 Theorem C20_option_off : forall k, hidden false k = false.
@@ -78,6 +87,7 @@ Proof. vm_compute. split; reflexivity. Qed.
 
 Print Assumptions C20_pruning_spec.
 Print Assumptions C20_pruning_walk.
+Print Assumptions C20_pruning_walk_bfs.
 Print Assumptions C20_option_off.
 Print Assumptions C20_docker_file.
 Print Assumptions C20_hg_glob_file.
